@@ -119,6 +119,19 @@ class Loader:
             _LOGGER.info('adding bucket to cell: %s', bucketname)
             self.cell.add_node(self.buckets[bucketname])
 
+        # Servers below a bucket that is no longer part of the cell cannot
+        # keep their apps: the scheduler will place them again, and the
+        # server would still hold them if its bucket is inserted back.
+        members = self.cell.members()
+        for servername, server in six.iteritems(self.servers):
+            if servername in members:
+                continue
+            for appname in list(server.apps):
+                _LOGGER.info('Server %s left the cell, removing: %s',
+                             servername, appname)
+                self.backend.delete(z.path.placement(servername, appname))
+            server.remove_all()
+
     def load_partitions(self):
         """Load partitions."""
         # Create default partition.
